@@ -38,6 +38,11 @@ func genC12(t *rapid.T) TCase {
 				c.Ops = append(c.Ops, TOp{K: "sleep", D: rapid.SampledFrom([]int{1, 1, 2, 5, 10, 20}).Draw(t, "ms")})
 			}
 		case 9:
+			if rapid.Bool().Draw(t, "neighbourInsteadOfTie") {
+				c.Ops = append(c.Ops, TOp{K: "neighbour", D: rapid.SampledFrom([]int{2, 5, 5, 10}).Draw(t, "delay"), N: rapid.SampledFrom([]int{3, 10, 20, 35, 45, 80, 200}).Draw(t, "gapMicros")})
+				made += 2
+				continue
+			}
 			k := rapid.IntRange(2, 8).Draw(t, "tie")
 			c.Ops = append(c.Ops, TOp{K: "burst", N: k, D: rapid.SampledFrom(delays).Draw(t, "delay")})
 			made += k
@@ -128,6 +133,18 @@ func runT(t vstat.TB, prop, test string, c TCase) {
 
 func TestC12Rapid(t *testing.T) {
 	rapid.Check(t, func(rt *rapid.T) { runT(rt, "C12", "TestC12Rapid", genC12(rt)) })
+}
+
+// TestC12Neighbours: the systematic part for futures whose deadlines are microseconds apart.
+func TestC12Neighbours(t *testing.T) {
+	for rep := 0; rep < vstat.Pick(6, 60); rep++ {
+		for _, gap := range []int{3, 10, 20, 35, 45, 80, 200} {
+			for _, mw := range []int{1, 10} {
+				c := TCase{IdleMs: 20, MaxWorkers: mw, Warm: rep%2 == 0, Ops: []TOp{{K: "neighbour", D: 2 + rep%4, N: gap}, {K: "neighbour", D: 3, N: gap + 7}}}
+				runT(t, "C12", "TestC12Neighbours", c)
+			}
+		}
+	}
 }
 
 func TestC13Rapid(t *testing.T) {
